@@ -366,6 +366,8 @@ def crash_case(scn, k, nth, pr, extra, sc):
                 bump("c06_real_sigkills")
         else:
             bump("c06_uncrashed_runs")
+            if scn.get("output_gone"):
+                bump("c06_uncrashed_runs_with_vanishing_output_directories")
         if not wait_orphans(pr):
             out["inconclusive"].append({"why": "orphaned tasks did not end", "detail": None})
         started = [e for e in pr.events() if e["kind"] == "start"]
@@ -488,7 +490,7 @@ def main(tier, n=None):
     e2c = [(c, ["C06"]) for c in e2]
     res2 = common.parallel_map(sched.eval_case, e2c, timeout=240)
     rep.merge_pool(res2, e2c)
-    return rep.finish(required_reach=["c06_crashes", "c06_rows_audited", "c06_real_sigkills", "c06_complete_run_checks", "c06_commit_flag_checks", "c06_e2_rows_checked"])
+    return rep.finish(required_reach=["c06_uncrashed_runs_with_vanishing_output_directories", "c06_crashes", "c06_rows_audited", "c06_real_sigkills", "c06_complete_run_checks", "c06_commit_flag_checks", "c06_e2_rows_checked"])
 
 
 def replay(path):
